@@ -300,9 +300,11 @@ impl Buffer {
 
         let layer = &mut self.layers[layer];
         for i in start_line..=end_line {
-            let line = &mut layer.lines[i as usize];
+            let Some(line) = layer.lines.get_mut(i as usize) else {
+                continue;
+            };
             if line.chars.len() > start_column {
-                line.chars.insert(end_column as usize, AttributedChar::default());
+                line.insert_char(end_column, AttributedChar::default());
                 line.chars.remove(start_column);
             }
         }
@@ -317,10 +319,14 @@ impl Buffer {
 
         let layer = &mut self.layers[layer];
         for i in start_line..=end_line {
-            let line = &mut layer.lines[i as usize];
+            let Some(line) = layer.lines.get_mut(i as usize) else {
+                continue;
+            };
             if line.chars.len() > start_column {
                 line.chars.insert(start_column, AttributedChar::default());
-                line.chars.remove(end_column + 1);
+                if end_column + 1 < line.chars.len() {
+                    line.chars.remove(end_column + 1);
+                }
             }
         }
     }
